@@ -59,7 +59,7 @@ class World:
                 self.T[newt[0]] = r
                 del r
             del out, xs
-        elif k == "inplace":
+        elif k in ("inplace", "inplacefam"):
             t = self.T[ev["t"]]
             v = self.operand(ev["val"])
             try:
@@ -137,3 +137,13 @@ def compare(beh: list[dict]):
         reset_global_state()
         if was:
             gc.enable()
+
+
+def compare_many(behs):
+    """Worker for multiprocessing: compares a list of behaviours, returns [(index, result)] for the disagreeing ones."""
+    out = []
+    for i, b in enumerate(behs):
+        r = compare(b)
+        if r is not None:
+            out.append((i, r))
+    return out
